@@ -3,16 +3,17 @@
 properties, report any alarm (a FALSE alarm: the patches are behaviour-preserving), revert. Hand-run tool, not a registered check."""
 import glob, os, subprocess, sys
 os.chdir(os.path.dirname(os.path.abspath(__file__)))
+REPO = os.environ.get('VERIF_REPO', '/repo')
 PROPS = {'pool': ['C01', 'C02', 'C03', 'C04'], 'once': ['C05', 'C06', 'C07'], 'events': ['C08'], 'cpus': ['C09', 'C10', 'C11'],
          'linked': ['C12'], 'region': ['C13'], 'vicinal': ['C14'], 'deque': ['C15'], 'nm': ['C16'], 'bench': ['C17'], 'alloc': ['C18'],
          'cbh': ['C19', 'C20']}
 tags = sys.argv[1:] or sorted(PROPS)
-assert subprocess.run(['git', '-C', '/repo', 'status', '--porcelain'], capture_output=True, text=True).stdout.strip() == '', '/repo not clean'
+assert subprocess.run(['git', '-C', REPO, 'status', '--porcelain'], capture_output=True, text=True).stdout.strip() == '', '/repo not clean'
 tot = bad = 0
 for tag in tags:
     for d in sorted(glob.glob(f'benign/{tag}*/b*')):
         patch = os.path.abspath(f'{d}/patch.diff')
-        if subprocess.run(['git', '-C', '/repo', 'apply', patch]).returncode != 0:
+        if subprocess.run(['git', '-C', REPO, 'apply', patch]).returncode != 0:
             print(d, 'PATCH DOES NOT APPLY'); continue
         try:
             alarms = []
@@ -26,5 +27,5 @@ for tag in tags:
                 bad += 1
             print(d, 'FALSE ALARM ' + str(alarms) if alarms else 'quiet', flush=True)
         finally:
-            subprocess.run(['git', '-C', '/repo', 'checkout', '--', '.']); subprocess.run(['git', '-C', '/repo', 'clean', '-fdq', '--', 'packages'])
+            subprocess.run(['git', '-C', REPO, 'checkout', '--', '.']); subprocess.run(['git', '-C', REPO, 'clean', '-fdq', '--', 'packages'])
 print(f'{bad}/{tot} benign changes raise an alarm')
